@@ -2,6 +2,7 @@ import Std.Data.HashMap
 import WitnessVerif.Model.Witness
 import WitnessVerif.Spec.Rules
 import WitnessVerif.Model.Bastion
+import WitnessVerif.Model.Config
 /-
 wdrv: replays a trace written by the Go harness through the model, line by line.
 Every checked record is answered by `OK n`, `DIVERGE n kind field model=.. impl=..` or
@@ -65,6 +66,7 @@ structure St where
   vtab : HashMap String Bool := {}                -- "vid msg sig" -> verdict of the real verifier
   stats : HashMap String Nat := {}
   lreqs : Array (String × List String) := #[]       -- pending LR records (session id, tokens)
+  cfEntries : Array (String × Cfg.Entry) := #[]    -- entries of the configuration file being read
   lastPBW : Option String := none                 -- what the last written body must parse to
   nOK : Nat := 0
   nDiv : Nat := 0
